@@ -567,15 +567,15 @@ def rule_g(ctx):
 
 
 def run(ctx):
-    rule_f(ctx)
-    rule_g(ctx)
+    ctx.guard(rule_f, ctx)
+    ctx.guard(rule_g, ctx)
     # colour corrections are applied to images and arrays through the shared BaseCorrection workflow
     from . import c10 as _c10
     from .common import shared as _shared
 
     _shared(ctx, "C12.d", (lambda c_: _c10.rule_a(c_) and None), why="ColorCorrection fits and applies its balance inside BaseCorrection.__call__: the corrected swatches reach the caller only through that workflow")
-    rule_e(ctx)
+    ctx.guard(rule_e, ctx)
     side = rule_a(ctx)
-    rule_b(ctx, side)
-    rule_c(ctx)
-    rule_d(ctx)
+    ctx.guard(rule_b, ctx, side)
+    ctx.guard(rule_c, ctx)
+    ctx.guard(rule_d, ctx)
